@@ -788,6 +788,8 @@ class Learner2D(BaseLearner):
         points = list(self._stack.keys())
         loss_improvements = list(self._stack.values())
         n_left = n - len(points)
+        # Points that are pending already stay pending when tell_pending is False.
+        was_pending = None if tell_pending else set(self.pending_points)
         for p in points[:n]:
             self.tell_pending(p)
 
@@ -808,7 +810,8 @@ class Learner2D(BaseLearner):
         if not tell_pending:
             self._stack = OrderedDict(zip(points[: self.stack_size], loss_improvements))
             for point in points[:n]:
-                self.pending_points.discard(point)
+                if point not in was_pending:
+                    self.pending_points.discard(point)
             self._ip_combined = None
 
         return points[:n], loss_improvements[:n]
